@@ -38,11 +38,11 @@ def member_name(draw, ext=".ics", fancy=True):
         stem = draw(
             st.one_of(
                 st.lists(_name_char, min_size=1, max_size=8).map("".join),
-                st.sampled_from(["%41", "a%2Fb", "a b", "x#y", "q?r=1", "semi;colon", "plus+plus", "co:lon", "café", "%", "a%", "%zz"]),
+                st.sampled_from(["%41", "a%2Fb", "a b", "x#y", "q?r=1", "semi;colon", "plus+plus", "co:lon", "café", "%", "a%", "%zz", ".dot", ".dot", "..two", ".a b"]),
             )
         )
     stem = stem.replace("/", "").replace("\x00", "")
-    if not _ok_stem(stem):
+    if not _ok_stem(stem) and stem not in (".dot", "..two", ".a b"):  # hidden-file names are legitimate member names
         stem = "m" + stem.strip() + "m"
     return stem + ext
 
